@@ -41,11 +41,41 @@ def solve_rec(rec, solver=None):
 
 def setup_split(scn, interval):
     portf, tg, prices, nodes = scen.build(scn)
-    rec = {'portf': portf, 'tg': tg, 'prices': prices, 'scn': scn}
-    with Quiet():
+    rec = {'portf': portf, 'tg': tg, 'prices': prices, 'scn': scn, 'split': interval}
+    with Quiet(), impl.Capture(portf) as cap:
         op = portf.setup_split_optim_problem(prices, tg, interval_size=interval)
     rec['op'] = op
+    rec['captured_list'] = cap.caught      # name -> list of asset problems, one per non-empty interval
     return rec
+
+
+def split_interval(scn, tg, parts=3):
+    """an interval size (pandas freq string) cutting the horizon into about `parts` pieces"""
+    T = tg.T
+    step = scn['grid']['step_s']
+    k = max(1, T // parts)
+    tot = step * k
+    return ('%dmin' % (tot // 60)) if tot % 3600 else ('%dh' % (tot // 3600))
+
+
+def asset_blocks(rec):
+    """asset name -> list of (lo, hi) index ranges of its variables in the portfolio's x (mono: one range;
+    split: one per interval), derived from the SIZES of the captured asset problems, not from the mapping"""
+    blocks = {a.name: [] for a in rec['portf'].assets}
+    o = 0
+    if 'captured_list' in rec:
+        n_iv = max(len(v) for v in rec['captured_list'].values()) if rec['captured_list'] else 0
+        for k in range(n_iv):
+            for a in rec['portf'].assets:
+                n = len(rec['captured_list'][a.name][k].c)
+                blocks[a.name].append((o, o + n))
+                o += n
+    else:
+        for a in rec['portf'].assets:
+            n = len(rec['captured'][a.name].c)
+            blocks[a.name].append((o, o + n))
+            o += n
+    return blocks
 
 
 def is_mip(op):
@@ -289,8 +319,9 @@ def orc_value_accounting(rec, tag='mono', offsets=None):
                      'facts': {'mode': tag, 'what': 'summary'}})
     if offsets:
         for a in rec['portf'].assets:
-            lo, hi = offsets[a.name]
-            own = -float(np.dot(op.c[lo:hi], res.x[lo:hi]))
+            own = 0.0
+            for lo, hi in offsets[a.name]:
+                own += -float(np.dot(op.c[lo:hi], res.x[lo:hi]))
             got = float(dcf[a.name].sum())
             if abs(own - got) > tol:
                 viol.append({'oracle': 'value_accounting', 'detail': '%s: asset %s: DCF total %.8g but minus cost of its own variables is %.8g' % (tag, a.name, got, own),
